@@ -102,6 +102,8 @@ Theorem resolution_correct_core p :
     (forall i x, (i < length vs)%nat -> nth i ts (TGlobal 0) = TGlobal x ->
        In (nth i vs O) (sundeclared (sc_of st O)) /\ vdecl (vget st (nth i vs O)) = NoDecl
        /\ vname (vget st (nth i vs O)) = x) /\
+    (forall i s a x, (i < length vs)%nat -> nth i ts (TGlobal 0) = TBind s a x ->
+       vdecl (vget st (nth i vs O)) <> NoDecl /\ vname (vget st (nth i vs O)) = x) /\
     (forall i, (i < length vs)%nat ->
        vuses (vget st (nth i vs O)) = Z.of_nat (count_occ Nat.eq_dec vs (nth i vs O))).
 Proof.
@@ -142,7 +144,7 @@ Proof.
   { intros i Hi. rewrite Ets.
     rewrite (nth_indep _ (TGlobal 0) (final (e0 p) (lab_of st home O))) by (rewrite map_length; exact Hi).
     apply (map_nth (fun w => final (e0 p) (lab_of st home w))). }
-  split; [|split].
+  split; [|split; [|split]].
   - (* same Var iff same declaration *)
     intros i j Hi Hj. rewrite !Hnth_v, !Hnth_t by assumption.
     set (wi := nth i (rev log) O). set (wj := nth j (rev log) O).
@@ -172,6 +174,15 @@ Proof.
       destruct (I_pend_complete _ _ _ _ _ RS _ Vi Ri Di) as [[_ Hin]|[]].
       rewrite Hi0 in Hin. split; [exact Hin|]. split; [exact Di|exact Ex].
     + rewrite Li in Ex. discriminate.
+  - (* bound names are declared variables *)
+    intros i s a x Hi Ex. rewrite Hnth_v, Hnth_t in * by assumption.
+    set (wi := nth i (rev log) O) in *.
+    assert (Hwi : In wi (rev log)) by (apply nth_In; exact Hi).
+    pose proof (Hlab wi Hwi) as Li.
+    unfold lab_of in *. unfold lab_root in *.
+    destruct (Z.eqb_spec (vdecl (vget st (root_of st wi))) 0) as [Di|Di].
+    + destruct Li as [_ Li]. rewrite Li in Ex. discriminate.
+    + rewrite Li in Ex. injection Ex as _ _ Ex. split; [exact Di|exact Ex].
   - (* Uses *)
     intros i Hi. rewrite Hnth_v by exact Hi.
     set (wi := nth i (rev log) O).
